@@ -3,7 +3,8 @@ import ShootVerif.Proofs.MapperCtor
 C15 — mapping through accessors/constructors equals plain field mapping.
 
 Model: `newView` (what `shoot new -getset` gives the mapper: constructor parameters recovered from
-the keyed literal of the C02 model, getters, setters as pseudo-fields), `ctorMatch` (makeCtorMatch
+the keyed literal of the C02 model — nested literals of embedded accessor-mode structs included —,
+getters, setters as pseudo-fields, promoted ones too), `ctorMatch` (makeCtorMatch
 with zero-value synthesis), then the ordinary pair loop started from the write-set the constructor
 left. Spec: `candsTo`/`candsFrom` on the exported twin (`twinName`, `readable`, `writable`).
 -/
